@@ -47,6 +47,22 @@ Fixpoint compile (h : hpat) : ppat :=
   | HKeyword n => PMatchClass keyword_class_path [PMatchValue (VEConst (LStr n))] [] []
   end.
 
+(* the user errors of compile_pattern: `p :as _`, (| ...) with fewer than two alternatives,
+   (. ...) without an attribute -- raised wherever they occur in the pattern *)
+Fixpoint accepted (h : hpat) : bool :=
+  match h with
+  | HLit _ | HSym _ | HStar _ | HKeyword _ => true
+  | HOr ps => Nat.leb or_min_alternatives (List.length ps) && forallb accepted ps
+  | HValue path => Nat.leb value_min_symbols (List.length path)
+  | HSeq ps => forallb accepted ps
+  | HMap _ ps _ => forallb accepted ps
+  | HClass _ ps _ kps => forallb accepted ps && forallb accepted kps
+  | HAs p n => negb (String.eqb n as_forbidden_name) && accepted p
+  end.
+
+(* compile_pattern as a partial function: None = HySyntaxError *)
+Definition compile_checked (h : hpat) : option ppat := if accepted h then Some (compile h) else None.
+
 (* ---- the reference: what each Hy pattern means (Python's pattern of the same kind, names as Python sees them) ---- *)
 Section Ref.
 Variable value : Type.
